@@ -1300,9 +1300,14 @@ def fl_cases(ctx, r, lines, checks):
         rec_cycles = []
         orig = fcl._random_cycle
 
+        rc_calls = []
+
         def wrapped(adj, rs):
+            pos0 = len(rs.log)
+            order = [(v, list(adj[v])) for v in adj]          # dict order and set orders as iterated (unchanged during the call)
             cyc = orig(adj, rs)
             rec_cycles.append((None if cyc is None else list(cyc), len(rs.log)))
+            rc_calls.append((order, list(rs.log[pos0:]), None if cyc is None else list(cyc)))
             return cyc
         out = err = None
         try:
@@ -1316,6 +1321,18 @@ def fl_cases(ctx, r, lines, checks):
             err = e
         finally:
             fcl._random_cycle = orig
+        # the random walk itself: `_random_cycle` as coded vs Gen.randomCycle on the recorded iteration orders and draws
+        for order, draws, cyc in rc_calls[:ctx.scale(3, 12)]:
+            ctx.tick('fl:walk:' + ('dead-end' if cyc is None else f'cycle{min(len(cyc), 6)}'))
+            lines.append('rcyc ' + (';'.join(f"{lab(v)}>{','.join(lab(u) for u in ns) or '-'}" for v, ns in order) or '-') + ' ' + (','.join(str(d) for d in draws) or '-'))
+            checks.append(('generators.frustrated_loop (_random_cycle) vs Gen.randomCycle', 'random walk', 'none' if cyc is None else 'ok ' + ','.join(lab(v) for v in cyc),
+                           HDR + f'# _random_cycle on adj (iteration orders) {order!r} with draws {draws!r} returned {cyc!r}\n', False))
+            if cyc is not None:
+                nbrs = dict(order)
+                okc = (len(cyc) >= 3 and len(set(cyc)) == len(cyc) and all(cyc[(i + 1) % len(cyc)] in nbrs[cyc[i]] for i in range(len(cyc))))
+                if not okc:
+                    ctx.fail('property', 'generators.frustrated_loop', '_random_cycle: not a simple cycle of the graph', f'{call}: walk returned {cyc!r} on {order!r}',
+                             repro=HDR + f'import dimod.generators.fcl as fcl\n# {call}: _random_cycle returned {cyc!r}\nassert False\n')
         ctx.tick('fl' + (':plant' if plant else ':unplanted') + (':gauge' if gauge else '') + (':R' if R != float('inf') else '') + (':predicate' if short else '')
                  + (f':raises-{type(err).__name__}' if err else ''))
         ctx.case(('fl', call), nontrivial=out is not None, sample=dict(call=call))
@@ -1694,6 +1711,107 @@ def _forms(kind, value, r):
     return out
 
 
+# ------------------------------------------------------------------------------------ purity: arguments unchanged, second call equal
+
+def _held_forms(kind, value):
+    """forms of an argument that the CALLER keeps (so a change made by the generator is visible afterwards and in a second call):
+    (class, expression over v).  Arrays: every dtype that holds the values exactly, writeable float64 first (np.asarray(x, dtype=float)
+    returns the caller's own array exactly then)."""
+    out = []
+    if kind == 'array':
+        flat = [y for x in value for y in (x if isinstance(x, list) else [x])]
+        out += [('writeable float64 ndarray', 'np.array(v, dtype=np.float64)'), ('list', '[list(x) if isinstance(x, list) else x for x in v]'),
+                ('tuple', 'tuple(tuple(x) if isinstance(x, list) else x for x in v)'),
+                ('float32 ndarray', 'np.array(v, dtype=np.float32)'), ('float16 ndarray', 'np.array(v, dtype=np.float16)'),
+                ('Fortran-ordered float64 ndarray', 'np.asfortranarray(np.array(v, dtype=np.float64))'),
+                ('non-contiguous float64 view', 'np.repeat(np.array(v, dtype=np.float64), 2, axis=-1)[..., ::2]')]
+        if all(float(y).is_integer() for y in flat):
+            out += [(f'{dt} ndarray', f'np.array(v, dtype=np.{dt})') for dt in ('int64', 'int32', 'int16', 'int8')]
+            if all(y >= 0 for y in flat):
+                out += [('unsigned ndarray', f'np.array(v, dtype=np.{dt})') for dt in ('uint8', 'uint16', 'uint64')]
+    elif kind == 'ndarray':              # documented as a NumPy array (wireless.py): numeric dtypes, layouts
+        cplx = np.iscomplexobj(value) and bool(np.iscomplex(value).any())
+        base = 'complex128' if cplx else 'float64'
+        out += [(f'writeable {base} ndarray', f'np.array(v, dtype=np.{base})'), (f'Fortran-ordered {base} ndarray', f'np.asfortranarray(np.array(v, dtype=np.{base}))'),
+                (f'non-contiguous {base} view', f'np.repeat(np.array(v, dtype=np.{base}), 2, axis=-1)[..., ::2]'),
+                ('complex64 ndarray', 'np.array(v, dtype=np.complex64)')]
+        if not cplx:
+            out += [('writeable complex128 ndarray', 'np.array(v, dtype=np.complex128)'), ('float32 ndarray', 'np.array(v, dtype=np.float32)')]
+            if all(float(y).is_integer() for y in np.real(value).ravel()):
+                out += [(f'{dt} ndarray', f'np.array(np.real(v), dtype=np.{dt})') for dt in ('int64', 'int8')]
+    elif kind in ('iterable', 'collection', 'sequence'):
+        out += [('list', 'list(v)'), ('tuple', 'tuple(v)')]
+        if kind == 'sequence':
+            if value and all(isinstance(x, str) and len(x) == 1 for x in value):
+                out += [('str', '"".join(v)')]
+        elif value and all(isinstance(x, tuple) and len(x) == 2 for x in value):
+            try:
+                if len({x[0] for x in value}) == len(value):
+                    out += [('dict view', 'dict(v).items()')]
+            except TypeError:
+                pass
+        elif value and len(set(map(repr, value))) == len(value):
+            out += [('dict view', 'dict.fromkeys(v).keys()')]
+    elif kind == 'mapping':
+        out += [('dict', 'dict(v)'), ('Mapping that is not a dict', '__import__("collections").ChainMap({}, dict(v))')]
+    elif kind == 'nxgraph':           # v = (nodes, edges[, node attributes]): a networkx graph the caller keeps (GraphLike / `lattice`)
+        out += [('networkx Graph', 'nxg(v)'), ('networkx Graph with node / edge / graph attributes', 'nxg(v, True)'), ('frozen networkx Graph', '__import__("networkx").freeze(nxg(v))')]
+    elif kind == 'nxedges':           # the edges of a networkx graph: the EdgeView itself (documented usage `G.edges`)
+        out += [('networkx EdgeView', 'nxg((sorted({x for e in v for x in e}, key=repr), v)).edges')]
+    elif kind == 'nxnodes':
+        out += [('networkx NodeView', 'nxg((v, [])).nodes')]
+    return out
+
+
+def nxg(v, attrs=False):
+    import networkx as nx
+    g = nx.Graph()
+    g.add_nodes_from(v[0]); g.add_edges_from(v[1])
+    for name, vals in (v[2] if len(v) > 2 else {}).items():
+        nx.set_node_attributes(g, values=vals, name=name)
+    if attrs:
+        for i, n in enumerate(g.nodes): g.nodes[n]['weight'] = float(i)
+        for i, e in enumerate(g.edges): g.edges[e]['bias'] = -1.0 - i
+        g.graph['name'] = 'kept by the caller'
+    return g
+
+
+NXG_SRC = '''
+def nxg(v, attrs=False):
+    import networkx as nx
+    g = nx.Graph()
+    g.add_nodes_from(v[0]); g.add_edges_from(v[1])
+    for name, vals in (v[2] if len(v) > 2 else {}).items():
+        nx.set_node_attributes(g, values=vals, name=name)
+    if attrs:
+        for i, n in enumerate(g.nodes): g.nodes[n]['weight'] = float(i)
+        for i, e in enumerate(g.edges): g.edges[e]['bias'] = -1.0 - i
+        g.graph['name'] = 'kept by the caller'
+    return g
+'''
+SNAP_SRC = r"""
+def snap(o):
+    # a value that is equal before and after iff the object (and what it holds) is unchanged, dtype / flags / order included
+    import numpy as np, collections.abc as abc
+    if isinstance(o, np.ndarray):
+        return ('ndarray', o.dtype.str, o.shape, o.strides, bool(o.flags.writeable), repr(o.tolist()))
+    if isinstance(o, (list, tuple)):
+        return (type(o).__name__, [snap(x) for x in o])
+    if hasattr(o, 'adj') and hasattr(o, 'nodes') and hasattr(o, 'graph'):      # a networkx graph: nodes, edges, all attribute dicts, in order
+        return (type(o).__name__, repr(list(o.nodes(data=True))), repr(list(o.edges(data=True))), repr(dict(o.graph)), repr({n: list(o.adj[n]) for n in o.adj}))
+    if type(o).__name__ in ('EdgeView', 'NodeView', 'EdgeDataView', 'NodeDataView'):
+        return (type(o).__name__, repr(list(o)))
+    if isinstance(o, (abc.KeysView, abc.ValuesView)):
+        return (type(o).__name__, [snap(x) for x in o])
+    if isinstance(o, abc.ItemsView):
+        return (type(o).__name__, [(snap(k), snap(x)) for k, x in o])
+    if isinstance(o, abc.Mapping):
+        return (type(o).__name__, [(snap(k), snap(x)) for k, x in o.items()])
+    return (type(o).__name__, repr(o))
+"""
+exec(SNAP_SRC)
+
+
 def _same_model(a, b):
     if isinstance(a, dimod.ConstrainedQuadraticModel) or isinstance(b, dimod.ConstrainedQuadraticModel):
         return type(a) is type(b) and list(a.variables) == list(b.variables) and a.is_equal(b)
@@ -1707,10 +1825,11 @@ def forms_cases(ctx, r):
     from dimod.generators.bpsp import binary_paint_shop_problem
     from dimod.generators.satisfiability import random_kmcsat
     from dimod.generators.chimera import chimera_anticluster
-    env0 = {'G': G, 'np': np, 'dimod': dimod, 'binary_paint_shop_problem': binary_paint_shop_problem, 'random_kmcsat': random_kmcsat,
-            'chimera_anticluster': chimera_anticluster}
+    from dimod.generators.wireless import mimo, coordinated_multipoint
+    env0 = {'coordinated_multipoint': coordinated_multipoint, 'nxg': nxg, 'G': G, 'np': np, 'dimod': dimod, 'binary_paint_shop_problem': binary_paint_shop_problem, 'random_kmcsat': random_kmcsat,
+            'chimera_anticluster': chimera_anticluster, 'mimo': mimo}
     imports = ('from dimod.generators.bpsp import binary_paint_shop_problem\nfrom dimod.generators.satisfiability import random_kmcsat\n'
-               'from dimod.generators.chimera import chimera_anticluster\n')
+               'from dimod.generators.chimera import chimera_anticluster\nfrom dimod.generators.wireless import mimo, coordinated_multipoint\nfrom numpy import array\n')
 
     def run_call(call, args, subst):
         """evaluate `call` (an expression over the argument names) with each name bound to its list form, except those in
@@ -1731,6 +1850,7 @@ def forms_cases(ctx, r):
         ref, ref_err = run_call(call, args, {})
         pool = [(an, cls, expr) for an, kind in kinds.items() for cls, expr in _forms(kind, args[an], r)]
         if not pool:
+            pure(name, call, args, kinds, ref, ref_err)
             return
         # every single-argument substitution of a one-shot form, and a random sample of the rest / of combinations
         chosen = [[t] for t in pool if t[1] == 'one-shot iterator']
@@ -1764,6 +1884,76 @@ def forms_cases(ctx, r):
                         + (f'raises {type(err).__name__}: {err}' if got is None else f'accepted although the list form raises {type(ref_err).__name__}' if ref is None
                            else f'returns {coef(got) if not isinstance(got, dimod.ConstrainedQuadraticModel) else "a different CQM"}, the list form {coef(ref) if not isinstance(ref, dimod.ConstrainedQuadraticModel) else ""}'))
                 ctx.fail('property', site, cls, what[:1500], repro=repro)
+        pure(name, call, args, kinds, ref, ref_err)
+
+    def pure(name, call, args, kinds, ref, ref_err):
+        """the caller keeps the argument objects: they must be unchanged after the call (values, dtype, flags, order), a second call
+        with the SAME objects must return the same model, and that model is the one of the list form"""
+        site = f'generators.{name}'
+        held = {an: _held_forms(kind, args[an]) for an, kind in kinds.items()}
+        if not all(held.values()):
+            return
+        combos = [{an: fs[0] for an, fs in held.items()}]                                   # all writeable float64 / plain lists
+        for an, fs in held.items():                                                         # every form of one argument, one at a time over the reps
+            combos.append({a: (r.choice(fs) if a == an else r.choice(f2[:3])) for a, f2 in held.items()})
+        for _ in range(ctx.scale(1, 6)):
+            combos.append({an: r.choice(fs) for an, fs in held.items()})
+        for combo in combos:
+            env = dict(env0)
+            with warnings.catch_warnings():
+                warnings.simplefilter('ignore')
+                for an, val in args.items():
+                    env[an] = eval(combo[an][1], {'v': val, 'np': np, 'nxg': nxg}) if an in combo else val
+            before = {an: snap(env[an]) for an in args}
+            outs, after = [], dict(before)
+            for _k in range(2):
+                with warnings.catch_warnings():
+                    warnings.simplefilter('ignore')
+                    try:
+                        outs.append(eval(call, env))
+                    except (ValueError, TypeError, RuntimeError, KeyError, IndexError, AttributeError) as e:
+                        outs.append(e)
+                for an in args:                       # after EVERY call (two sign flips cancel)
+                    if after[an] == before[an]:
+                        after[an] = snap(env[an])
+            forms_txt = ', '.join(f'{an} = {combo[an][1]}' for an in combo)
+            ctx.tick(f'pure:{name}:' + '+'.join(sorted(set(c for c, _ in combo.values()))))
+            ctx.case(('pure', name, call, repr(args), forms_txt), nontrivial=ref is not None, sample=dict(call=call, forms=forms_txt))
+            binds = ''.join(f'{an}_list = {val!r}\n' for an, val in args.items())
+            bind = ''.join(f'v = {an}_list; {an} = ' + (combo[an][1] if an in combo else 'v') + '\n' for an in args)
+            model_eq = ('def same(a, b): return (a.is_equal(b) and list(a.variables) == list(b.variables)) if isinstance(a, dimod.ConstrainedQuadraticModel) else '
+                        '(a.vartype is b.vartype and list(a.variables) == list(b.variables) and coef(a) == coef(b))\n')
+            head = HDR + imports + SNAP_SRC + NXG_SRC + model_eq + binds
+            changed = [an for an in args if before[an] != after[an]]
+            m1, m2 = outs
+            def same(a, b):
+                if isinstance(a, Exception) or isinstance(b, Exception):
+                    return isinstance(a, Exception) and isinstance(b, Exception) and type(a) is type(b)
+                return _same_model(a, b)
+            if changed:
+                an = changed[0]
+                ctx.fail('property', site, f'{an} given as {combo[an][0] if an in combo else "list"}: the argument is changed by the call',
+                         f'{call} with {forms_txt} of {args!r}: {an} before {before[an]!r:.300}, after {after[an]!r:.300}',
+                         repro=head + bind + f'before = snap({an})\n{call}\nassert snap({an}) == before, "{call.split("(")[0]} changed its argument {an}"\n')
+            elif not same(m1, m2):
+                cls = '; '.join(f'{an} given as {c}' for an, (c, _) in sorted(combo.items()))
+                ctx.fail('property', site, cls + ': second call with the same argument objects differs',
+                         f'{call} with {forms_txt} of {args!r}: first {m1 if isinstance(m1, Exception) else (coef(m1) if not isinstance(m1, dimod.ConstrainedQuadraticModel) else canon_cqm(m1))!r:.500}, '
+                         f'second {m2 if isinstance(m2, Exception) else (coef(m2) if not isinstance(m2, dimod.ConstrainedQuadraticModel) else canon_cqm(m2))!r:.500}',
+                         repro=head + bind + f'a = {call}\nb = {call}\nassert same(a, b), "two calls with the same argument objects give different models"\n')
+            elif not any(kinds[an].startswith('nx') for an in combo) and not same(m1, ref if ref is not None else ref_err):
+                bad = [an for an in combo if combo[an][0] not in ('list',)]
+                alone = []              # the arguments whose form alone (fresh object, the others as lists) already changes the model
+                for an in bad:
+                    got1, err1 = run_call(call, args, {an: combo[an][1]})
+                    if not same(got1 if got1 is not None else err1, ref if ref is not None else ref_err):
+                        alone.append(an)
+                bad = alone or bad
+                cls = '; '.join(f'{an} given as {combo[an][0]}' for an in sorted(bad))
+                ctx.fail('property', site, cls,
+                         f'{call} with {forms_txt} of {args!r}: ' + (f'raises {type(m1).__name__}: {m1}' if isinstance(m1, Exception) else 'accepted although the list form raises' if ref is None
+                                                                       else f'returns {coef(m1) if not isinstance(m1, dimod.ConstrainedQuadraticModel) else canon_cqm(m1)!r:.500}, the list form {coef(ref) if not isinstance(ref, dimod.ConstrainedQuadraticModel) else canon_cqm(ref)!r:.500}'),
+                         repro=head + ''.join(f'v = {an}_list; {an} = v\n' for an in args) + f'a = {call}\n' + bind + f'b = {call}\nassert same(a, b), "the model depends on the form of the argument(s) {sorted(bad)}"\n')
 
     pool = ['a', 'b', 'c', 'd', 0, 1, 2, 3, ('t', 1)]
     for rep in range(ctx.scale(10, 150)):
@@ -1819,9 +2009,33 @@ def forms_cases(ctx, r):
                              ('doped', f'G.doped(0.5, (gnodes, gedges), seed={seed})'),
                              ('frustrated_loop', f'G.frustrated_loop((gnodes, gedges), 2, seed={seed})')):
             one(gname, gcall, dict(gnodes=gnodes, gedges=gedges), dict(gnodes='collection', gedges='collection'))
+        # the same graphs as networkx objects the caller keeps (GraphLike): unchanged, attributes included; two calls agree
+        for gname, gcall in (('uniform', f'G.uniform(graph, "SPIN", low=-2.0, high=2.0, seed={seed})'), ('randint', f'G.randint(graph, "BINARY", low=-3, high=3, seed={seed})'),
+                             ('ran_r', f'G.ran_r(3, graph, seed={seed})'), ('power_r', f'G.power_r(3, graph, seed={seed})'), ('doped', f'G.doped(0.5, graph, seed={seed})'),
+                             ('frustrated_loop', f'G.frustrated_loop(graph, 2, seed={seed})')):
+            one(gname, gcall, dict(graph=(gnodes, gedges)), dict(graph='nxgraph'))
+        one('maximum_independent_set', 'G.maximum_independent_set(edges, nodes, strength=2.5)', dict(edges=edges, nodes=some_nodes), dict(edges='nxedges', nodes='nxnodes'))
+        one('maximum_weight_independent_set', 'G.maximum_weight_independent_set(edges, nodes)', dict(edges=edges, nodes=weighted), dict(edges='nxedges'))
+        if rep % 2 == 0:
+            cn = r.randint(1, 3)
+            cedges = [e for e in itertools.combinations(range(cn), 2) if r.random() < .6]
+            cattrs = {'num_transmitters': {v: r.randint(1, 2) for v in range(cn)}, 'num_receivers': {v: r.randint(1, 2) for v in range(cn)}} if r.random() < .5 else {}
+            one('coordinated_multipoint', f'coordinated_multipoint(lattice, "BPSK", F_distribution=("binary", "real"), seed={seed})',
+                dict(lattice=(list(range(cn)), cedges, cattrs)), dict(lattice='nxgraph'))
         planted = [(v, r.choice([-1, 1])) for v in gnodes]
         one('frustrated_loop', f'G.frustrated_loop((gnodes, gedges), 2, seed={seed}, planted_solution=dict(planted) if isinstance(planted, list) else planted)',
             dict(gnodes=gnodes, gedges=gedges, planted=planted), dict(planted='mapping'))
+        # wireless: the received signal / channel / transmitted symbols / noise are NumPy arrays the caller keeps
+        nr_, nt_ = r.randint(1, 2), r.randint(1, 2)
+        zr = lambda: float(r.randint(-4, 4)) / r.choice([1, 1, 2])   # noqa: E731
+        Fm = np.array([[zr() for _ in range(nt_)] for _ in range(nr_)]); ym = np.array([[zr()] for _ in range(nr_)])
+        Fc = Fm + 1j * np.array([[zr() for _ in range(nt_)] for _ in range(nr_)]); yc = ym + 1j * np.array([[zr()] for _ in range(nr_)])
+        ts = np.array([[float(r.choice([-1, 1]))] for _ in range(nt_)]); cn = np.array([[zr()] for _ in range(nr_)])
+        one('mimo', 'mimo("BPSK", y, F)', dict(y=ym, F=Fm), dict(y='ndarray', F='ndarray'))
+        if np.iscomplex(Fc.conj().T @ yc).any() or np.iscomplex(Fc.conj().T @ Fc).any():      # the data-dependent real form: D65
+            one('mimo', 'mimo("QPSK", y, F)', dict(y=yc, F=Fc), dict(y='ndarray', F='ndarray'))
+        one('mimo', 'mimo("BPSK", F=F, transmitted_symbols=ts)', dict(F=Fm, ts=ts), dict(F='ndarray', ts='ndarray'))
+        one('mimo', 'mimo("BPSK", F=F, transmitted_symbols=ts, channel_noise=cn)', dict(F=Fm, ts=ts, cn=cn), dict(F='ndarray', ts='ndarray', cn='ndarray'))
         if rep % 3 == 0:
             tile, inter = chimera_lattice(1, 2, 2)
             sn = [v for v in range(8) if r.random() < .8]
